@@ -10,7 +10,7 @@
 (* projection PForest: instances numbered in pre-order, Ref values shown   *)
 (* as positions in that numbering.                                         *)
 (***************************************************************************)
-EXTENDS BinaryWire, Reflection, Tables
+EXTENDS AttrWire, Reflection, Tables
 
 -----------------------------------------------------------------------------
 (* Structure of a file                                                       *)
@@ -221,14 +221,22 @@ ShownName(class, prop)  == IF class \in Classes /\ IsOk(Canonical(class, prop[1]
 \* the property is written at all (known properties that do not serialize are dropped)
 IsStored(class, prop) == ~(class \in Classes /\ IsOk(Canonical(class, prop[1]))) \/ Serializes(class, prop[1])
 
-AttrBlobOK(blob, attrs) == TRUE     \* decided by AttrWire (C14); see BinaryFormatTrace
-
 \* what an attribute map looks like after a trip through its blob (docs/attributes.md: there is
-\* no String type on the wire distinct from BinaryString; rotations are stored like CFrames)
+\* no String type on the wire distinct from BinaryString; rotations are stored like CFrames; a
+\* cached face id is always present and may be empty)
 NormAttrVal(pv) == IF pv.t = "String" THEN [t |-> "BinaryString", v |-> pv.v]
                    ELSE IF pv.t = "CFrame" THEN [t |-> "CFrame", v |-> SnapCFrame(pv.v)]
+                   ELSE IF pv.t = "Font" THEN [t |-> "Font", v |-> <<pv.v[1], pv.v[2], pv.v[3], IF pv.v[5] = <<>> THEN 0 ELSE 1, pv.v[5]>>]
                    ELSE pv
 NormAttrs(v) == [i \in 1..Len(v) |-> <<v[i][1], NormAttrVal(v[i][2])>>]
+
+\* the blob stored for an Attributes value is the one docs/attributes.md describes (C14): decoded by
+\* AttrWire it gives back the map (entry order is free; names are unique)
+AttrBlobOK(blob, attrs) ==
+    LET d == DecodeAttrs(blob) IN
+    /\ d.ok
+    /\ Len(d.v) = Len(attrs)
+    /\ {d.v[i] : i \in 1..Len(d.v)} = {NormAttrs(attrs)[i] : i \in 1..Len(attrs)}
 
 \* w: decoded wire payload, wt: wire type name, pv: the value the DOM held
 WireOK(w, wt, pv, order, sstr) ==
